@@ -23,7 +23,7 @@ EXPECTED_PROBES = ['refill-with-partial-token', 'token-longer-than-buffer', 'inp
 
 class P(sb.StreamProp):
     ID = ID
-    CLASSES = {'token', 'less', 'input', 'more', 'stream', 'phantom', 'fatal', 'hang'}
+    CLASSES = {'sanitizer', 'crash', 'token', 'less', 'input', 'more', 'stream', 'phantom', 'fatal', 'hang'}
 
     def gen_scenario(self, rng):
         return scenario.gen_scenario(rng, forbid=('vtrail',), want={'flavors': ['nr', 'nr', 'r', 'r', 'c99', 'c99', 'cxx', 'cxx']})
